@@ -70,6 +70,7 @@ def run(res):
             alines.append('ISRESTR|%s|%s' % ('CTL' if logic == 'CTL' else 'CTLS', sexpr(r)))
     alpha = lean_batch(alines)
     bad = 0
+    broken = []
     ops = {}
     distinct = set()
     for i, ((logic, t), (r, ln)) in enumerate(zip(cases, impl)):
@@ -82,17 +83,68 @@ def run(res):
         tree_ops(t, ops)
         if r != t:
             distinct.add((logic, t))
-        if sexpr(r) != mr.strip() or sexpr(ln) != mln.strip() or alpha[i].strip() != 'true':
+        if alpha[i].strip() != 'true':
             bad += 1
             if bad <= 3:
-                what = ('output outside the restricted alphabet' if alpha[i].strip() != 'true'
-                        else 'output tree differs from the model (whose output is proved equivalent and restricted)')
-                res.violation('%s rewriting of %s: %s; impl %s / LNot %s, model %s / %s'
-                              % (logic, tree_str(t), what, tree_str(r), tree_str(ln),
-                                 tree_str(parse_sexpr(mr)), tree_str(parse_sexpr(mln))),
-                              {'logic': logic, 'formula': tree_str(t), 'formula_sexpr': sexpr(t),
-                               'impl_restricted': sexpr(r), 'model_restricted': mr, 'impl_lnot': sexpr(ln),
-                               'model_lnot': mln, 'alphabet_ok': alpha[i]})
+                res.violation('%s rewriting of %s: output %s uses an operator outside the restricted alphabet'
+                              % (logic, tree_str(t), tree_str(r)),
+                              {'logic': logic, 'formula': tree_str(t), 'formula_sexpr': sexpr(t), 'impl_restricted': sexpr(r)})
+        elif sexpr(r) != mr.strip() or sexpr(ln) != mln.strip():
+            # the correspondence is broken: the trees differ from the model's.  The property itself only asks for
+            # equivalence, so search for a structure that separates the implementation's output from the original
+            bad += 1
+            broken.append((logic, t, r, ln, mr, mln))
+    sep_found = 0
+    if broken:
+        from common import all_structures
+        Ks = [K for n in (1, 2) for K in all_structures(n)] + rng.sample(list(all_structures(3)), 20)
+        # the smallest broken cases are the cheapest to decide (the tableau is exponential in the temporal operators)
+        small = [b for b in broken if F.temporal_count(b[1]) <= 2]
+        small.sort(key=lambda b: len(sexpr(b[1])))
+        broken = small[:6] if small else sorted(broken, key=lambda b: len(sexpr(b[1])))[:1]
+        for logic, t, r, ln, mr, mln in broken:
+            def wrap(x):
+                if logic == 'CTL' or (logic == 'CTLS' and F.is_ctls_state(x) and F.is_ctls_state(t)):
+                    return [('CTL' if logic == 'CTL' else 'CTLS', x)]
+                return [('CTLS', ('A', x)), ('CTLS', ('E', x))]
+            pairs = [(t, r), (('not', t), ln)]
+            witness = None
+            for orig, out in pairs:
+                if witness:
+                    break
+                wa, wb = wrap(orig), wrap(out)
+                lines2 = []
+                for K in Ks:
+                    for (m1, x1), (m2, x2) in zip(wa, wb):
+                        lines2.append('%s|%s|%s' % (m1, K.enc(), sexpr(x1)))
+                        lines2.append('%s|%s|%s' % (m2, K.enc(), sexpr(x2)))
+                ans = lean_batch(lines2)
+                k = 0
+                for K in Ks:
+                    for _ in wa:
+                        if ans[k].strip() != ans[k + 1].strip() and ans[k].startswith('OK') and ans[k + 1].startswith('OK'):
+                            witness = (K, orig, out, ans[k], ans[k + 1])
+                        k += 2
+                        if witness:
+                            break
+                    if witness:
+                        break
+            if witness:
+                sep_found += 1
+                K, orig, out, a1, a2 = witness
+                res.violation('%s: the rewriting/LNot of %s is %s, which is NOT equivalent: on the structure %s the '
+                              'original holds at %s, the output at %s' % (logic, tree_str(orig), tree_str(out), K.describe(), a1, a2),
+                              {'logic': logic, 'formula': tree_str(t), 'formula_sexpr': sexpr(t), 'impl_restricted': sexpr(r),
+                               'impl_lnot': sexpr(ln), 'structure': K.describe(), 'original_sat': a1, 'output_sat': a2})
+            else:
+                res.violation('%s rewriting of %s: output tree %s (LNot %s) differs from the model\'s %s (%s); no separating '
+                              'structure with <= 3 states found — correspondence PMC.Fm.restrict/restrictCTL/lnot vs '
+                              'get_equivalent_restricted_formula/LNot no longer checks'
+                              % (logic, tree_str(t), tree_str(r), tree_str(ln), mr, mln),
+                              {'logic': logic, 'formula_sexpr': sexpr(t), 'impl_restricted': sexpr(r), 'model_restricted': mr,
+                               'impl_lnot': sexpr(ln), 'model_lnot': mln,
+                               'correspondence': 'PMC.Fm.restrict / restrictCTL / lnot (PMC/Model/Syntax.lean) vs the implementation'},
+                              no_input=True)
     if kf_live:
         for k in kf:
             res.known.append(k['what'])
